@@ -84,3 +84,11 @@ impl Input {
         self.kind.len()
     }
 }
+
+#[cfg(feature = "oq3_verif")]
+impl Input {
+    /// Number of tokens (verification hook).
+    pub(crate) fn verif_len(&self) -> usize {
+        self.len()
+    }
+}
